@@ -6,7 +6,7 @@ WRAP = ['pthread_cond_wait', 'pthread_cond_signal']
 
 RULE = ('histories over one file-backed store in a private directory: set / set-multiple / remove / clear / get / '
         'save+synchronise / save interrupted after k system calls (every k from 0 to all) followed by a process '
-        'restart / bursts of 2-4 saves (one or two files) with the saver thread held inside the k-th system call of the first / save+synchronise with n spurious wake-ups of pthread_cond_wait and a slow disk / save whose writes fail with ENOSPC from the k-th on / load / restart / repeated Load() and LoadFromFile() on one long-lived object between unsaved edits and same-length saves / hand-written settings files / typed setters (unsigned, int, bool) and GetValueAsBool / several devices released and re-registered in turn / universe appear-rename-teardown / device '
+        'restart / bursts of 2-4 saves (one or two files) with the saver thread held inside the k-th system call of the first / save+synchronise with n spurious wake-ups of pthread_cond_wait and a slow disk / save whose writes fail with ENOSPC from the k-th on / load / restart / repeated Load() and LoadFromFile() on one long-lived object between unsaved edits and same-length saves / hand-written settings files / a settings file that is a symbolic link / universes with ids of 1-10 digits torn down and restored in both orders / saves whose close() or rename() fails / typed setters (unsigned, int, bool) and GetValueAsBool / several devices released and re-registered in turn / universe appear-rename-teardown / device '
         'register-patch-priority-unregister-shutdown; keys and values aimed at the separators (=, #, blanks, empty, '
         'prefixes of each other, bytes above 127), universe ids at 0, 2^31-1, 2^31, 2^32-1, priorities at 0, 200, '
         '201, 255; a minority of inputs outside the side conditions (untrimmed, key with =, embedded newline). '
@@ -17,8 +17,8 @@ ASSUMPTIONS = ['a crash is a process crash: what the kernel holds after the last
                'next process sees (no power loss; fsync is not needed and not modelled)',
                'rename(2) replaces the destination atomically (POSIX); hypothesis of c18_crash_atomic',
                'a failing write fails for good (every later write of that save fails too) - what the harness injects; the '
-               'theorem c18_write_failure_keeps_old covers any mix of successful, short and failing writes; a failing close '
-               'or rename is not modelled',
+               'theorem c18_write_failure_keeps_old covers any mix of successful, short and failing writes; a failing close() '
+               'or rename() is modelled and injected (c18_close_rename_failure_keeps_old)',
                'c18_sync: each step of a thread (queue push / swap under m_incoming_mutex, lock, unlock, flag access under '
                'the mutex, signal, one whole save) is atomic, memory is sequentially consistent for accesses made under the '
                'mutex, pthread_cond_wait releases the mutex and blocks atomically; safety only (no fairness / termination)',
@@ -282,7 +282,7 @@ def gen_cases(rng, tier):
         first = fill(rng, rng.randint(0, 4), keys)
         second = fill(rng, rng.randint(1, 4), keys)
         ops = first + (['V'] if rng.random() < 0.7 else []) + second
-        ops += ['W:%d' % rng.choice([1, 1, 2, 3, rng.randint(1, 9)]), rng.choice(['L', 'G:%s' % hx(keys[0])])]
+        ops += [rng.choice(['W:%d' % rng.choice([1, 1, 2, 3, rng.randint(1, 9)]), 'Wc', 'Wr']), rng.choice(['L', 'G:%s' % hx(keys[0])])]
         if rng.random() < 0.5:
             ops += fill(rng, 1, keys) + ['V', 'L']
         yield ' '.join(ops)
@@ -339,6 +339,20 @@ def gen_cases(rng, tier):
             if rng.random() < 0.5: ops.append('L')
         ops += ['L'] + ['P:%s:k/k/k:k/k/k:k/k/k:k/k/k' % hx(dv) for dv in devs]
         yield ' '.join(ops)
+    # 4e. the settings file is a symbolic link (to a file in the same directory): loads follow it, a save
+    #     replaces it; several universes whose ids have different numbers of digits, torn down and
+    #     restored in both orders
+    for i in range(30 * scale):
+        keys = [rkey(rng) for _ in range(2)]
+        ops = fill(rng, rng.randint(0, 2), keys) + rng.choice([['V', 'K'], ['K'], ['V', 'K', 'l']])
+        ops += fill(rng, rng.randint(1, 2), keys) + [rng.choice(['V', 'l', 'L', 'X:%d' % rng.randrange(6), 'Y:1'])]
+        ops += ['L', 'G:%s' % hx(keys[0])] + (fill(rng, 1, keys) + ['V', 'L'] if rng.random() < 0.5 else [])
+        yield ' '.join(ops)
+    for i in range(30 * scale):
+        ids = rng.sample([1, 10, 100, 11, 101, 1000, 9, 99, 4294967295, 429496729], 3)
+        us = ['U:%d:1:%s:%d' % (u, hx('n%d' % u), rng.randrange(2)) for u in ids]
+        back = ['U:%d:0:-:0' % u for u in (ids if rng.random() < 0.5 else ids[::-1])]
+        yield ' '.join(us + ['L'] + back)
     # 5. inputs outside the side conditions
     for i in range(150 * scale):
         ops = fill(rng, rng.randint(0, 3))
@@ -403,7 +417,7 @@ LEVEL_TEXT = ('Coq theorems over an executable model of the preference store, it
               'or the complete new one (rename atomicity as explicit hypothesis), lifted to whole histories from any '
               'directory. For every schedule of the saver-thread machine (saves one system call per step, spurious '
               'wake-ups) every save issued before a Synchronize has completed when it returns and the file is the most '
-              'recent one (safety; one calling thread; termination not proved). Universe name / merge mode and port '
+              'recent one (safety; N calling threads: one distinguished caller plus an environment of other callers; termination not proved). The exact image of every line / inadmissible entry under the loader is proved (c18_inadmissible_image); a failing close() or rename() keeps the old file. Universe name / merge mode and port '
               'patch (all 2^32 ids) / priority (static-only and full ports) / mode are restored through the file after '
               'any sequence of teardowns of other universes / ports (key injectivity proved). Typed setters and '
               'GetValueAsBool round-trip. An empty universe name is not restored (known finding); the rdm discovery '
